@@ -52,7 +52,7 @@ def make_header(rng, ver, blocks=(), reserved=None, alg=None, via_load=None):
 
 def header_tuple(h):
     return (h.version_id, h.key_usage, h.algorithm, h.mode_of_use, h.version_num, h.exportability, h.reserved,
-            tuple(h.blocks._blocks.items()))
+            tuple((k, h.blocks[k]) for k in h.blocks))
 
 
 def clone_header(h):
